@@ -110,6 +110,14 @@ def cases(tier):
     yield "{ hero { f { a } f { b { c } } } }", {}
     yield "{ hero { f { b { c } } f { a } } }", {}
     yield "{ hero { x: f { a } ... on T { x: f { b { c { d } } } } } }", {}
+    # the same fragment spread twice in one selection set, one spread switched off (either one, by literal or by variable; at the top and below a field)
+    deep = " fragment Deep on T { a { b { c } } } fragment Flat on T { z }"
+    for first, second in (("@include(if: $a)", "@include(if: $b)"), ("@skip(if: $b)", "@skip(if: $a)"), ("@skip(if: true)", ""), ("", "@skip(if: true)"),
+                          ("@include(if: false)", "@include(if: true)")):
+        for va, vb in ((False, True), (True, False), (True, True), (False, False)):
+            yield "query Q($a: Boolean!, $b: Boolean!) { ...Deep %s ...Flat ...Deep %s }%s" % (first, second, deep), {"a": va, "b": vb}
+            yield "query Q($a: Boolean!, $b: Boolean!) { hero { ...Deep %s x ...Deep %s } }%s" % (first, second, deep), {"a": va, "b": vb}
+            yield "query Q($a: Boolean!, $b: Boolean!) { hero { ... on T { ...Deep %s } ...Deep %s } }%s" % (first, second, deep), {"a": va, "b": vb}
 
 
 def check(tier, seed):
